@@ -446,6 +446,106 @@ def run_px(root, nodes, op: str) -> str:
         return err_str(e).replace('ERR:err:', 'ERR:')
 
 
+_other: dict = {}      # the second tree of the current case: {'root': ..., 'nodes': [...]}
+
+
+def run_xop(root, nodes, op: str):
+    """operators over nodes of TWO trees (the case's tree `a` = context tree, another built tree `b`).
+    Returns (impl, spec, tags): XDM 2.4 — the trees are kept apart, document order inside each tree, an
+    implementation-dependent but stable order between the trees, `<<`/`>>` consistent with it."""
+    from elementpath import XPathContext
+    parts = op.split(':')
+    name = parts[0]
+    n2 = _other['nodes']
+    lab = {id(n): ('a', k) for k, n in enumerate(nodes)}
+    lab.update({id(n): ('b', k) for k, n in enumerate(n2)})
+
+    def pick(spec_):   # 'a3.b1.a0'
+        return [] if spec_ == '_' else [(nodes if t[0] == 'a' else n2)[int(t[1:])] for t in spec_.split('.')]
+
+    def show(res):
+        return '.'.join('%s%d' % lab.get(id(x), ('?', 0)) for x in res) or '_'
+    ver = 30
+    try:
+        if name == 'xset':
+            opn, A, B = parts[1], pick(parts[2]), pick(parts[3])
+            tok = op_token({'union': 'union', 'bar': 'bar', 'inter': 'inter', 'except': 'except'}[opn], ver)
+
+            def mk(a=A, b=B):
+                return XPathContext(root=root, variables={'A': a, 'B': b})
+            idx_all = dict(lab)
+            res = checked_select(tok, mk, {k: v for k, v in idx_all.items()})
+            res2 = list(tok.select(XPathContext(root=root, variables={'A': A[::-1], 'B': B[::-1]})))
+            sa, sb = {id(x) for x in A}, {id(x) for x in B}
+            want = {'union': sa | sb, 'bar': sa | sb, 'inter': sa & sb, 'except': sa - sb}[opn]
+            got = [lab[id(x)] for x in res]
+            problems = []
+            if {id(x) for x in res} != want or len(res) != len(want):
+                problems.append('wrong-set')
+            trees = [t for t, _ in got]
+            if any(trees[i] != trees[i + 1] for i in range(len(trees) - 1)) and len(set(trees)) == 2 and \
+                    trees != sorted(trees) and trees != sorted(trees, reverse=True):
+                problems.append('trees-interleaved')
+            for t in 'ab':
+                ks = [k for tt, k in got if tt == t]
+                if ks != sorted(ks):
+                    problems.append(f'tree-{t}-not-in-document-order')
+            if [id(x) for x in res2] != [id(x) for x in res]:
+                problems.append('order-depends-on-operand-enumeration')
+            # the spec list: by (tree rank as observed, index)
+            first = trees[0] if trees else 'a'
+            rank = {first: 0, ('b' if first == 'a' else 'a'): 1}
+            spec = '.'.join('%s%d' % x for x in sorted((lab[i] for i in want), key=lambda x: (rank[x[0]], x[1]))) or '_'
+            return show(res) + ''.join('!' + p_ for p_ in problems), spec, []
+        if name == 'xprec':
+            a, b = pick(parts[1])[0], pick(parts[2])[0]
+            ctx = lambda: XPathContext(root=root, variables={'a': a, 'b': b})   # noqa: E731
+            u = list(op_token('bar', ver).select(XPathContext(root=root, variables={'A': [a], 'B': [b]})))
+            a_first = u and u[0] is a
+            r = {}
+            for nm in ('prec', 'foll'):
+                for x, y, key in ((a, b, nm + ':ab'), (b, a, nm + ':ba')):
+                    try:
+                        v = list(op_token(nm, ver).select(XPathContext(root=root, variables={'a': x, 'b': y})))
+                        r[key] = '-' if not v else ('T' if v[0] is True else 'F')
+                    except Exception as e:
+                        r[key] = '-' if 'FOCA0002' in str(e) else err_str(e)
+            impl = ','.join(f'{k}={v}' for k, v in sorted(r.items()))
+            t, f = ('T', 'F') if a_first else ('F', 'T')
+            spec = ','.join(f'{k}={v}' for k, v in sorted({'prec:ab': t, 'prec:ba': f, 'foll:ab': f, 'foll:ba': t}.items()))
+            return impl, spec, []
+        if name == 'xroot':
+            b = pick(parts[1])[0]
+            with_docs = parts[2] == 'D' and n2[0].node_kind == 'document'
+            kw = {'documents': {'http://x/other': n2[0]}} if with_docs else {}
+            res = checked_select(op_token('croot', ver), lambda: XPathContext(root=root, variables={'a': b}, **kw), lab)
+            impl = show(res)
+            spec = 'b0'    # F&O 14.9: the root of the tree containing the node
+            return impl, spec, ([] if with_docs else ['F02e'])
+    except Exception as e:
+        return err_str(e), '?', []
+    return 'bad', '?', []
+
+
+def gen_xops(rng, n1: int, n2: int, kinds2: str) -> list[str]:
+    ops = []
+
+    def some(t, n, maxk=4):
+        return [f'{t}{rng.randrange(n)}' for _ in range(rng.randint(0, maxk))]
+
+    def s(l):
+        return '.'.join(l) or '_'
+    for _ in range(2):
+        A = some('a', n1) + some('b', n2)
+        B = some('a', n1) + some('b', n2) + ([rng.choice(A)] if A and rng.random() < 0.5 else [])
+        rng.shuffle(A)
+        rng.shuffle(B)
+        ops.append(f"xset:{rng.choice(['union', 'bar', 'inter', 'except'])}:{s(A)}:{s(B)}")
+    ops.append(f'xprec:a{rng.randrange(n1)}:b{rng.randrange(n2)}')
+    ops.append(f"xroot:b{rng.randrange(n2)}:{rng.choice('DN')}")
+    return ops
+
+
 def run_op(root, nodes, op: str) -> str:
     _flags.clear()
     out = _run_op(root, nodes, op)
@@ -913,6 +1013,24 @@ def compare(run: Run, cases: list[dict], nops: int = 6, stats: bool = True) -> N
                 st.count('lazy-state:' + ('nothing-built' if not ns_sel and not at_sel else
                                           'all-built' if len(ns_sel) == len(at_sel) == sum(r[0] == 'E' for r in srecs)
                                           else 'partly-built'))
+        # nodes of TWO trees: this case's tree as context tree + the previous tree of the batch
+        prev = _other.get('next')
+        _other['next'] = {'root': root, 'nodes': nodes}
+        if prev is not None and prev['root'] is not root and nodes and prev['nodes']:
+            _other.update(prev)
+            for xop in gen_xops(run.rng, len(nodes), len(prev['nodes']), ''):
+                _flags.clear()
+                impl, sp, xtags = run_xop(root, nodes, xop)
+                impl += ''.join(sorted(set(_flags)))
+                if stats:
+                    st.evaluations += 1
+                    st.count('xop:' + ':'.join(xop.split(':')[:2] if xop.startswith('xset') else xop.split(':')[:1]))
+                if impl != sp:
+                    if stats and xtags:
+                        st.count('F02e-region-hit')
+                    run.disagree(Disagreement(dict(case, op=xop, other_tree_nodes=len(prev['nodes'])), impl, None,
+                                              spec=sp, what='cross-tree:' + xop.split(':')[0], tags=xtags,
+                                              site='helpers.node_position / evaluate__node_comparison / get_root'))
         opans = f['ops'].split(';') if f['ops'] != '_' else []
         checked_unchanged = False
         for op, ms in zip(ops, opans):
